@@ -57,9 +57,9 @@ func regions(t string) []string {
 	case "rcyl":
 		return []string{"in:side", "in:cap", "side", "cap", "rim", "axis:in", "axis:out"}
 	case "line":
-		return []string{"capA:in", "capA:out", "side:in", "side:out", "capB:in", "capB:out", "axis", "beyond-axis"}
+		return []string{"capA:in", "capA:out", "side:in", "side:out", "capB:in", "capB:out", "axis", "beyond-axis", "side:near-end", "side:near-end"}
 	case "rcone":
-		return []string{"capA:in", "capA:out", "lateral:in", "lateral:out", "capB:in", "capB:out", "axis", "beyond-axis"}
+		return []string{"capA:in", "capA:out", "lateral:in", "lateral:out", "capB:in", "capB:out", "axis", "beyond-axis", "lateral:near-end", "lateral:near-end"}
 	}
 	return nil
 }
@@ -239,7 +239,8 @@ func genInRegion(r *hx.Rng, s Shape, label string) V3 {
 			return axialPoint(r, s, l+dist, 0)
 		default: // side / lateral
 			sl = l * r.Float()
-			if r.Chance(1, 4) {
+			nearEnd := len(label) > 8 && label[len(label)-8:] == "near-end"
+			if nearEnd || r.Chance(1, 4) {
 				sl = hx.Pick(r, []float64{0, l}) + rsign(r)*l*logU(r, 1e-9, 1e-2)
 				sl = math.Min(math.Max(sl, 0), l)
 			}
@@ -248,6 +249,9 @@ func genInRegion(r *hx.Rng, s Shape, label string) V3 {
 			d := rs + outDist(r, rs)
 			if in {
 				d = rs - inDepth(r, rs)
+			}
+			if nearEnd { // just inside the lateral region next to a cap, from almost on the axis to outside
+				d = hx.Pick(r, []float64{rs * logU(r, 1e-9, 1e-3), rs * logU(r, 1e-3, 0.5), rs * (0.5 + r.Float())})
 			}
 			// direction from c(s): (cos phi) e + (sin phi) radial with cos phi = rr / l
 			cosp := 0.0
